@@ -89,7 +89,13 @@ def check_model(net, bounds, P, stats, rich=False):
     got = sorted(r.id for r in cm.reactions)
     if got != keep:
         kind = "keeps blocked reactions" if set(got) - set(keep) else "drops non-blocked reactions"
-        out.append(({"fn": "fastcc", "check": kind}, case, f"kept {got}, non-blocked {keep}\nmodel {rxns}"))
+        sig = {"fn": "fastcc", "check": kind}
+        if kind.startswith("drops"):
+            bnds = {r[0]: (r[2], r[3]) for r in rxns}
+            dropped = set(keep) - set(got)
+            rev = {d for d in dropped if bnds[d][0] < 0 < bnds[d][1]}
+            sig["dropped"] = "reversible" if rev == dropped else "irreversible" if not rev else "mixed"
+        out.append((sig, case, f"kept {got}, non-blocked {keep}\nmodel {rxns}"))
     else:
         src = {r["id"]: r for r in before["reactions"]}
         for r in cm.reactions:
@@ -105,7 +111,40 @@ def check_model(net, bounds, P, stats, rich=False):
     return out
 
 
+STRUCTURED = [
+    # uptake feeding two parallel irreversible branches; a chain with a bypass; a branch with a dead end
+    ((-1, 0, 0), (-1, 1, 0), (-1, 0, 1), (0, -1, 0), (0, 0, -1)),
+    ((-1, 0, 0), (-1, 1, 0), (0, -1, 1), (-1, 0, 1), (0, 0, -1)),
+    ((-1, 0, 0), (-1, 1, 0), (-1, 0, 1), (0, -1, 0)),
+]
+SMALL = [(0, 1), (-1, 0), (-1, 1), (0, 0.5)]
+
+
+def structured_cases():
+    for net in STRUCTURED:
+        base = tuple((-10, 10) if families.is_boundary(c) else (0, 10) for c in net)
+        yield net, base
+        for i in range(len(net)):
+            for alt in SMALL + [(0, 0), (-10, 10)]:
+                b = list(base)
+                b[i] = alt
+                yield net, tuple(b)
+                for j in range(i + 1, len(net)):
+                    for alt2 in SMALL[:2]:
+                        b2 = list(b)
+                        b2[j] = alt2
+                        yield net, tuple(b2)
+
+
 def run_task(payload):
+    if payload.get("structured"):
+        stats, violations = {}, []
+        for net, bounds in payload["cases"]:
+            net = tuple(tuple(c) for c in net)
+            bounds = tuple(tuple(b) for b in bounds)
+            stats["models"] = stats.get("models", 0) + 1
+            violations.extend(check_model(net, bounds, payload["params"], stats, False))
+        return {"violations": violations[:300], "stats": stats}
     P = payload["params"]
     stats, violations = {}, []
     for net in payload["nets"]:
@@ -137,6 +176,8 @@ def explore(ctx):
     off = ctx.seed % len(nets)
     nets = nets[off:] + nets[:off]
     payloads = [{"params": P, "nets": nets[i:i + 2], "rich": ctx.thorough} for i in range(0, len(nets), 2)]
+    sc = list(structured_cases())
+    payloads += [{"params": P, "structured": True, "cases": sc[i:i + 20]} for i in range(0, len(sc), 20)]
     stats = {}
     with ctx.pool(timeout=3000) as pool:
         for i, status, res in pool.imap(payloads):
